@@ -13,6 +13,54 @@
 #define VERIF_CANARY(name) __CPROVER_assert(0, "canary: " name)
 static unsigned G_calls; static int G_cls; static void *G_inode, *G_db, *G_nip; static uint8_t G_kb; static uint64_t G_k; static _Bool G_throw;
 uint8_t IN_type, IN_kb; uint64_t IN_K; uint32_t IN_depth; _Bool IN_throw;
+#ifdef POL_OLC
+/* OLC policy: more forwarded arguments (read critical sections, parent slot, cached leaf); same contract.  Lock behaviour belongs to the step contract. */
+static void *G_a[12]; static uint64_t G_ret; static uint8_t G_ret2;
+#ifdef WHAT_ADD
+#define DEF_STEP(A, CLS) A##_ret A(A##_a0 inode, A##_a1 kb, A##_a2 k, A##_a3 vp, A##_a4 vn, A##_a5 db, A##_a6 depth, A##_a7 ncs, A##_a8 nip, A##_a9 pcs, A##_a10 cached) { \
+  G_calls++; G_cls = CLS; G_inode = (void *)inode; G_kb = kb; G_k = k; G_a[3] = (void *)vp; G_a[4] = (void *)(uintptr_t)vn; G_db = (void *)db; G_a[6] = (void *)(uintptr_t)depth; G_a[7] = (void *)ncs; G_nip = (void *)nip; G_a[9] = (void *)pcs; G_a[10] = (void *)cached; \
+  A##_ret r; __CPROVER_assert(sizeof(r) == 16, "optional<in_critical_section<node_ptr>*> is 16 bytes"); *(uint64_t *)&r = 0; ((uint64_t *)&r)[1] = 0; \
+  if (G_throw) { verif_exc_pending = 1; return r; } *(uint64_t *)&r = G_ret; *((uint8_t *)&r + 8) = G_ret2; return r; }
+#else
+#define DEF_STEP(A, CLS) A##_ret A(A##_a0 inode, A##_a1 kb, A##_a2 k, A##_a3 db, A##_a4 pcs, A##_a5 ncs, A##_a6 nip, A##_a7 cip, A##_a8 ccs, A##_a9 ctype, A##_a10 child) { \
+  G_calls++; G_cls = CLS; G_inode = (void *)inode; G_kb = kb; G_k = k; G_db = (void *)db; G_a[4] = (void *)pcs; G_a[5] = (void *)ncs; G_nip = (void *)nip; G_a[7] = (void *)cip; G_a[8] = (void *)ccs; G_a[9] = (void *)ctype; G_a[10] = (void *)child; \
+  if (G_throw) { verif_exc_pending = 1; return 0; } return (A##_ret)(G_ret & 0x1FF); }
+#endif
+DEF_STEP(STEP4, 1) DEF_STEP(STEP16, 2) DEF_STEP(STEP48, 3) DEF_STEP(STEP256, 4)
+void harness(void) {
+  uint8_t *node = malloc(LAY_OLC64_I256_SIZE); uint8_t *db = malloc(64); uint8_t *kb = malloc(1); uint64_t *key = malloc(8); uint8_t *o1 = malloc(32), *o2 = malloc(32), *o3 = malloc(32), *o4 = malloc(32), *o5 = malloc(32);
+  uint64_t *p1 = malloc(8), *p2 = malloc(8), *p3 = malloc(8), *p4 = malloc(8);
+  __CPROVER_assume(node && db && kb && key && o1 && o2 && o3 && o4 && o5 && p1 && p2 && p3 && p4);
+  IN_type = nondet_u8(); IN_kb = nondet_u8(); IN_K = nondet_u64(); IN_throw = G_throw = nondet_bool(); G_ret = nondet_u64(); G_ret2 = nondet_bool();
+  __CPROVER_assume(IN_type >= 1 && IN_type <= 4);
+  *kb = IN_kb; *key = IN_K;
+#ifdef WHAT_ADD
+  uint64_t *span = malloc(16); uint32_t *depth = malloc(4); __CPROVER_assume(span && depth);
+  IN_depth = nondet_u32(); *depth = IN_depth; span[0] = (uint64_t)(uintptr_t)o5; span[1] = nondet_u64(); const uint64_t vn = span[1]; *p1 = (uint64_t)(uintptr_t)o3;
+  DISP_ret r = DISP((DISP_a0)node, IN_type, kb, (DISP_a3)key, (DISP_a4)span, (DISP_a5)db, (DISP_a6)depth, (DISP_a7)o1, (DISP_a8)p1, (DISP_a9)o2, (DISP_a10)o4);
+  __CPROVER_assert(G_calls == 1, "C01 dispatch: exactly one step function runs");
+  __CPROVER_assert(G_cls == IN_type, "C01 dispatch: it is the step function of the node's own size class");
+  __CPROVER_assert(G_inode == (void *)node && G_kb == IN_kb && G_k == IN_K && G_db == (void *)db && G_nip == (void *)o3, "C01 dispatch: on this node, with the caller's key byte, key, index and parent slot");
+  __CPROVER_assert(G_a[3] == (void *)o5 && G_a[4] == (void *)(uintptr_t)vn && G_a[6] == (void *)(uintptr_t)IN_depth && G_a[7] == (void *)o1 && G_a[9] == (void *)o2 && G_a[10] == (void *)o4, "C01 dispatch: ... the caller's value view, depth, node / parent read sections and cached leaf");
+#else
+  uint64_t *q3 = malloc(8), *q4 = malloc(8); __CPROVER_assume(q3 && q4);       /* the pointer arguments are forwarded by reference: cells holding them */
+  *p1 = (uint64_t)(uintptr_t)o3; *p2 = (uint64_t)(uintptr_t)p3; *p4 = (uint64_t)(uintptr_t)o4; *q3 = (uint64_t)(uintptr_t)o5; *q4 = (uint64_t)(uintptr_t)(o5 + 8);
+  DISP_ret r = DISP((DISP_a0)node, IN_type, kb, (DISP_a3)key, (DISP_a4)db, (DISP_a5)o1, (DISP_a6)o2, (DISP_a7)p1, (DISP_a8)p2, (DISP_a9)p4, (DISP_a10)q3, (DISP_a11)q4);
+  __CPROVER_assert(G_calls == 1, "C01 dispatch: exactly one step function runs");
+  __CPROVER_assert(G_cls == IN_type, "C01 dispatch: it is the step function of the node's own size class");
+  __CPROVER_assert(G_inode == (void *)node && G_kb == IN_kb && G_k == IN_K && G_db == (void *)db && G_nip == (void *)o3, "C01 dispatch: on this node, with the caller's key byte, key, index and parent slot");
+  __CPROVER_assert(G_a[4] == (void *)o1 && G_a[5] == (void *)o2 && G_a[7] == (void *)p3 && G_a[8] == (void *)o4 && G_a[9] == (void *)o5 && G_a[10] == (void *)(o5 + 8), "C01 dispatch: ... the caller's parent / node read sections and child out-parameters");
+#endif
+  if (IN_throw) { __CPROVER_assert(verif_exc_pending, "C08 dispatch: an exception thrown by the step function reaches the caller"); VERIF_CANARY("exceptional exit reachable"); return; }
+  __CPROVER_assert(!verif_exc_pending, "C08 dispatch: no exception of its own");
+#ifdef WHAT_ADD
+  __CPROVER_assert(*(uint64_t *)&r == G_ret && ((*((uint8_t *)&r + 8)) & 1) == (G_ret2 & 1), "C01 dispatch: the step function's result is returned unchanged");
+#else
+  __CPROVER_assert(r == (DISP_ret)(G_ret & 0x1FF), "C01 dispatch: the step function's result is returned unchanged");
+#endif
+  VERIF_CANARY("normal exit reachable");
+}
+#else
 #ifdef WHAT_ADD
 static uint8_t *G_vp; static uint64_t G_vn; static uint32_t G_depth; static uint64_t G_ret;
 #define DEF_STEP(A, CLS) A##_ret A(A##_a0 inode, A##_a1 kb, A##_a2 k, A##_a3 vp, A##_a4 vn, A##_a5 db, A##_a6 depth, A##_a7 nip) { \
@@ -54,3 +102,4 @@ void harness(void) {
 #endif
   VERIF_CANARY("normal exit reachable");
 }
+#endif
